@@ -27,6 +27,7 @@ import cloudpickle
 import joblib as _real_joblib
 
 from .core import Sim, SimCrash, HarnessError, H, unit
+from . import procstate
 
 _RealParallel = _real_joblib.Parallel
 SIMFS_ROOT = "/simfs"
@@ -109,16 +110,21 @@ class SimParallel:
             if f is not None:
                 sim.fire(f, None)
                 raise RuntimeError("simulated worker failure in Parallel call %d task %d" % (site, idx))
-            func, args, kwargs = cloudpickle.loads(blobs[idx])
             mark = len(sim.zombies)
             sim.in_process_task += 1
+            worker = sim.choice(("worker", site), min(k, n))
             try:
-                r = func(*args, **kwargs)
-                rblob = cloudpickle.dumps(r)  # snapshot shipped back to the parent
+                # the task runs on the module-level state of its worker process, not the parent's
+                with procstate.WorkerContext(sim, worker):
+                    func, args, kwargs = cloudpickle.loads(blobs[idx])
+                    try:
+                        r = func(*args, **kwargs)
+                        rblob = cloudpickle.dumps(r)  # snapshot shipped back to the parent
+                    finally:
+                        # the worker process' threads are invisible to the parent from here on
+                        sim.abort_zombies(only=sim.zombies[mark:])
             finally:
                 sim.in_process_task -= 1
-                # the worker process' threads are invisible to the parent from here on
-                sim.abort_zombies(only=sim.zombies[mark:])
             sim.par_tasks += 1
             sim.advance(sim.duration(("par", site)) / k)
             if nxt < n:
@@ -994,6 +1000,7 @@ def install():
         bal.preprocess = preprocess
         patched.append(("synrbl.balancing", "preprocess(counter)"))
     _install_monitoring(sys.modules)
+    procstate.discover()
     _installed["patched"] = patched
     _installed["mods"] = mods
     return _installed
